@@ -31,6 +31,7 @@ def check_config(cfg, w, rep):
     # ---- the undeclared size is the commit's byte counter ----
     for p in R.commits:
         check_commit_size(cfg, w, rep, prog.fns[p])
+        check_commit_keeps_declared(cfg, w, rep, prog.fns[p])
     # ---- read side: every Metadata aggregate built from a record ----
     n_md = 0
     for b in prog.bodies:
@@ -329,3 +330,50 @@ def check_schema(cfg, w, rep, rt):
                     rep.violation("schema-type:%s" % fn_key(prog.owner_fn(b)), "`%s` (de)serialises %s instead of the record type" % (
                         short(b.path), t.callee.args), loc=span_str(t.span), config=cfg, rule="schema-side")
     rep.floor("serde_json_sites", n, 2, cfg)
+
+
+def check_commit_keeps_declared(cfg, w, rep, lf):
+    """A commit may fill in `opts.sri` / `opts.size` only when the writer declared none: every assignment to those fields in
+    the commit body is reachable only through the None edge of a switch on that same field — what the caller attached is
+    what gets indexed (e.g. a multi-hash integrity is not replaced by the single computed hash)."""
+    prog = w.prog
+    body = lf.body
+    key = fn_key(lf)
+    cf = prog.cfg(body)
+    for fld in ("sri", "size"):
+        none_gates = []
+        assigns = []
+        for b in body.blocks:
+            if b.cleanup or b.i not in cf.live():
+                continue
+            t = b.term
+            if t.k == "switch" and t.discr.place is not None:
+                for o in prog.resolve_pl(body, t.discr.place, IDENT):
+                    if o.kind == "discr":
+                        pl = o.info.place
+                        src = prog.resolve_lifted(body, pl.local, norm_path(pl), IDENT, at=o.blk)
+                        if src and all(x.kind == "field" and x.info == ("put::WriteOpts", fld) and not x.path for x in src):
+                            none_gates.append(Gate(body, (b.i, switch_target(t, VIDX["None"])), "declared %s is None" % fld, b.i))
+            for st in b.stmts:
+                if st.k == "assign":
+                    np_ = norm_path(st.place)
+                    if np_ and np_[-1][:2] == ("f", fld) and len(np_[-1]) == 3 and np_[-1][2] == "put::WriteOpts":
+                        assigns.append((b.i, st))
+                    # a mutable borrow of the field (Option::take / replace / insert ... through &mut) can change it as well
+                    if st.rv.k == "ref" and st.rv.j.get("mut") and st.rv.place is not None:
+                        rp = norm_path(st.rv.place)
+                        if rp and rp[-1][:2] == ("f", fld) and len(rp[-1]) == 3 and rp[-1][2] == "put::WriteOpts":
+                            assigns.append((b.i, st))
+        if not assigns:
+            continue
+        bad = unreachable_without(prog, body, none_gates, [b for b, _ in assigns]) if none_gates else [(assigns[0][0], None)]
+        if bad:
+            blk = bad[0][0]
+            st = [x for b_, x in assigns if b_ == blk][0]
+            rep.violation("commit-keeps-%s:%s" % (fld, key),
+                          "commit `%s` can overwrite a declared `%s` (assignment at %s is reachable when the writer supplied one): the entry would "
+                          "not carry what the writer attached" % (short(lf.path), fld, span_str(st.span)), loc=span_str(st.span), config=cfg,
+                          rule="commit-keeps-declared", witness=witness_str(body, bad[0][1]) if bad[0][1] else None)
+        else:
+            rep.ob(cfg, "commit-keeps-declared", "%s.%s" % (key, fld), "`%s` fills in %s only when none was declared" % (short(lf.path), fld))
+
